@@ -67,7 +67,7 @@ theorem mkPeer_id {now : Int} {i : Identity} {e : RawEntry} {p : Peer} (h : mkPe
 
 /-- a well-formed record parses to its peer, whatever the clock. -/
 theorem mkPeer_toRaw (now : Int) (i : Identity) (r : Rec) : mkPeer now i r.toRaw = .ok (r.toPeer i) := by
-  simp [mkPeer, Rec.toRaw, Rec.toPeer, pyInt, prioView]
+  simp [mkPeer, Rec.toRaw, Rec.toPeer, pyInt, prioView, prioReprErr]
 
 theorem minList_spec : ∀ {l : List Int} {m : Int}, minList l = some m → m ∈ l ∧ ∀ x ∈ l, m ≤ x := by
   intro l
@@ -177,5 +177,18 @@ theorem decideCore_delays {u : Int} {ps : List Peer} {me : Identity} {myPrio : I
     exact ⟨q, h1, h2, rfl⟩
   · rintro ⟨q, h1, h2, rfl⟩
     exact ⟨q, mem_blockers.mpr ⟨h1, h2⟩, rfl⟩
+
+/-- whenever the call does not raise, its result is `decideCore`'s. -/
+theorem decideP_ok {u : Int} {ps : List Peer} {me : Identity} {p : Int} {ac : Bool} {tg : Option Bool} {now now2 : Int}
+    {d : Decision} (h : decideP u ps me p ac tg now now2 = .ok d) : d = decideCore u ps me p ac tg now now2 := by
+  unfold decideP at h
+  split at h
+  · cases h
+  · simp only at h
+    split at h
+    · split at h
+      · cases h
+      · injection h with h; exact h.symm
+    · injection h with h; exact h.symm
 
 end Kopf.C13
